@@ -52,6 +52,7 @@ THEOREMS = [
     "Ural.Props.C06.fp_scheme_string",
     "Ural.Props.C06.fp_userinfo_string",
     "Ural.Props.C06.fp_irrelevant_label_string",
+    "Ural.Props.C06.fp_amp_dash_string",
     "Ural.Props.C06.fp_trailing_slash_string",
     "Ural.Props.C06.fp_index_string",
     "Ural.Props.C06.fp_fragment_string",
@@ -136,7 +137,7 @@ UNPROVED = (
     "WHICH THEOREM CARRIES WHICH CLAUSE. 'Ignores everything normalize_url ignores': fp_factor / fp_of_norm_eq / fp_of_normParts_eq only "
     "unfold the definition (hypothesis = equality of the very normalize_url call: lemmas); the clause is carried by Props/C06Fp.lean: for every "
     "transformation T of C04's family, fingerprintUrlString(T u) = fingerprintUrlString(u) (tuple and string, both strip_suffix, any "
-    "suffix trie, any idna decoder) - fp_scheme_string, fp_userinfo_string, fp_irrelevant_label_string, fp_trailing_slash_string, "
+    "suffix trie, any idna decoder) - fp_scheme_string, fp_userinfo_string, fp_irrelevant_label_string, fp_amp_dash_string (hypotheses of C04.norm_amp_dash_string), fp_trailing_slash_string, "
     "fp_index_string, fp_fragment_string, fp_tracking_item_string / _first_ / _alone_, fp_query_permutation_string, "
     "fp_amp_semicolon_string_partial (same exclusion as C04: not in front of an item starting with 'amp;'), fp_escape_spelling_string, "
     "fp_escape_case_string (an escaped capital: '/%41', '/%61', '/a' - D25 / e39f899), fp_clean_string / fp_surrounding_ws_string "
@@ -144,7 +145,7 @@ UNPROVED = (
     "pair u, u' such that the cleaned, resolved forms of u.lower() and u'.lower() are g.str and (T g).str in the grammar class "
     "NormBridge.UrlG.wf, platform_aware off. They instantiate at fpOpts (lowercase := true) the theorems of Props/C04Lower.lean, which "
     "re-prove C04's path / query / fragment theorems for BOTH values of `lowercase` (hypotheses read on the unescaped, case-folded text). "
-    "NOT covered: the leading 'amp-' (C04.norm_amp_dash_string is stated for normalize_url; not instantiated here), C04's readings. "
+    "C04's readings and exclusions carry over (amp- cut once, '&amp;' not in front of 'amp;', permutation without 'amp;' items). "
     "'Letter case': fp_case_insensitive / fp_case_flip / fp_case_string are congruences on `lower url` where `lower` is the model's "
     "ASCII str.lower: they prove that ASCII case flips anywhere are ignored; a non-ASCII case pair (e-acute / E-acute, Kelvin sign / k) "
     "is outside the model alphabet - exercised by the oracle on the real code (C03's HostCase laws describe what Python's lower does to hosts). "
